@@ -7,7 +7,7 @@ LEAN_MODULES = ["ViaProofs.C05"]
 LEMMA_MODULES = ['ViaProofs.Frag.Lines', 'ViaProofs.Frag.Headers', 'ViaProofs.Frag.Compose', 'ViaProofs.Trans.RL', 'ViaProofs.Trans.SL', 'ViaProofs.Trans.FL', 'ViaProofs.Trans.CH', 'ViaProofs.Trans.MH', 'ViaProofs.Trans.CK', 'ViaProofs.Trans.RQ', 'ViaProofs.Trans.RR', 'ViaProofs.Trans.RS', 'ViaProofs.Trans.MHA', 'ViaProofs.Trans.RQP']
 REQUIRED_THEOREMS = ['Via.RR.receive_suffix', 'Via.RR.receive_progress', 'Via.RR.ok_init', 'Via.RR.ok_step', 'Via.RR.readLoop_done', 'Via.RS.receive_suffix', 'Via.RS.receive_progress', 'Via.RS.ok_init', 'Via.RS.ok_step', 'Via.RS.readLoop_done']
 LEVEL = "proof"
-LEVEL_TEXT = ('PROOF of termination and index safety on the model: every receive consumes a prefix of its input (no index outside the buffer), makes progress or reports INVALID, and the per-read loops of server and client end within |read|+1 steps (well-founded recursion, no fuel); translated parsers as C01. PARTIAL for memory safety of the C++ itself: the same inputs run under ASan/UBSan/_GLIBCXX_DEBUG with aborts, hangs (watchdog) and escaped exceptions as compared outputs, including through the real http_client.')
+LEVEL_TEXT = ('PROOF of termination and index safety on the model: every receive consumes a prefix of its input (no index outside the buffer), makes progress or reports INVALID, and the per-read loops of server and client end within |read|+1 steps (well-founded recursion, no fuel); translated parsers and both receive functions as C01 / C07. PARTIAL for memory safety of the C++ itself: the same inputs run under ASan/UBSan/_GLIBCXX_DEBUG with aborts, hangs (watchdog) and escaped exceptions as compared outputs, including through the real http_client.')
 RULE = ("byte streams: uniformly random octets, random octets over an HTTP-ish alphabet, valid messages with random corruption "
         "(byte flips, insertions, deletions, truncation, duplication of lines), every single cut of short corrupted streams; "
         "fed to request and response receivers of every configuration and container in random fragments; oracle: no "
